@@ -992,6 +992,51 @@ var stripChoices = [][]string{
 	nil, nil, nil, nil, {"a/"}, {"t/"}, {"a/", "b/"}, {"a/b/", "a/"}, {"a/", "a/b/"}, {""}, {"a"}, {"./"}, {"t/d/"}, {"sub/", "a/sub/"}, {"a/l/", "b/"},
 }
 
+// strip prefixes derived from the tree: several prefixes of one path in both
+// orders, a prefix followed by its continuation, an empty prefix first
+func treeStrips(r *lib.Rng, root *Node) []string {
+	var all []located
+	root.all(nil, &all)
+	var deep []located
+	for _, l := range all {
+		if len(l.path) >= 3 || (len(l.path) == 2 && l.n.Kind != "dir") {
+			deep = append(deep, l)
+		}
+	}
+	if len(deep) == 0 {
+		return stripChoices[r.Intn(len(stripChoices))]
+	}
+	p := deep[r.Intn(len(deep))].path
+	i := 1
+	j := 2
+	if len(p) > 3 && r.Bool() {
+		j = 3
+	}
+	if j >= len(p) {
+		j = len(p) - 1
+	}
+	if j <= i {
+		return []string{strings.Join(p[:1], "/") + "/", ""}
+	}
+	s1 := strings.Join(p[:i], "/") + "/"
+	s2 := strings.Join(p[:j], "/") + "/"
+	s3 := strings.Join(p[i:j], "/") + "/"
+	switch r.Intn(6) {
+	case 0:
+		return []string{s1, s2}
+	case 1:
+		return []string{s2, s1}
+	case 2:
+		return []string{s1, s3}
+	case 3:
+		return []string{"", s1}
+	case 4:
+		return []string{s3, s1, s2}
+	default:
+		return []string{"zz/", s1, s3, s2}
+	}
+}
+
 func klassOf(base string, classes map[string]bool, extra ...string) string {
 	var ks []string
 	for k := range classes {
@@ -1022,6 +1067,10 @@ func genRecord(r *lib.Rng) (*Input, string) {
 	in := &Input{Call: "record", Tree: root, Paths: paths, Algs: algChoices[r.Intn(len(algChoices))],
 		Excl: exclChoices[r.Intn(len(exclChoices))], Strips: stripChoices[r.Intn(len(stripChoices))],
 		Norm: r.Bool(), Follow: follow}
+	if r.Chance(1, 3) {
+		in.Strips = treeStrips(r, root)
+		classes["treestrips"] = true
+	}
 	if r.Chance(1, 12) {
 		var all []located
 		root.all(nil, &all)
@@ -1047,7 +1096,13 @@ func genF11(r *lib.Rng) (*Input, string) {
 	root := &Node{Kind: "dir", Children: []*Node{{Kind: "dir", Name: top, Children: []*Node{inner}}}}
 	strips := []string{top + "/"}
 	klass := "F11-symlink-strip"
-	switch r.Intn(4) {
+	switch r.Intn(6) {
+	case 3:
+		strips = []string{top + "/", mid + "/"} // a second prefix matches what the first left
+		klass = "F11-symlink-strip-twice"
+	case 4:
+		strips = []string{top + "/", top + "/" + mid + "/"}
+		klass = "F11-symlink-strip-order"
 	case 0:
 		strips = []string{top + "/" + mid + "/"}
 	case 1:
@@ -1181,6 +1236,9 @@ func genRun(r *lib.Rng, call string) (*Input, string) {
 	}
 	in := &Input{Call: call, Tree: root, Algs: algChoices[r.Intn(7)], Excl: exclChoices[r.Intn(len(exclChoices))],
 		Strips: stripChoices[r.Intn(6)], Norm: r.Bool(), Follow: r.Bool()}
+	if r.Chance(1, 4) {
+		in.Strips = treeStrips(r, root)
+	}
 	in.Paths, _ = pickPaths(r, root)
 	in.Paths2 = []string{"."}
 	if r.Chance(1, 3) {
@@ -1365,7 +1423,7 @@ func main() {
 		if err != nil {
 			panic(err)
 		}
-		r := lib.NewRng(lib.Seed())
+		r := lib.NewRng(lib.Seed()).Fork() // Fork: streams of neighbouring seeds would otherwise be shifted copies
 		for i := 0; i < n; i++ {
 			in, klass := genCase(r.Fork(), i)
 			normalise(in)
